@@ -104,6 +104,15 @@ func (s *Server) Apply(l *raft.Log) interface{} {
 		}
 	}
 
+	if !recovered {
+		// This is a newly committed entry. If the state it applies to was
+		// restored from a snapshot and nothing was replayed since, the
+		// restored streams and consumer groups have yet to be started.
+		if err := s.finishRestore(); err != nil {
+			panic(fmt.Sprintf("failed to recover from Raft snapshot: %v", err))
+		}
+	}
+
 	// Unmarshal the log data and apply the operation to the FSM.
 	log := &proto.RaftLog{}
 	if err := log.Unmarshal(l.Data); err != nil {
@@ -275,6 +284,18 @@ func (s *Server) finishedRecovery(epoch uint64) (int, int, error) {
 		// output.
 		s.logger.Silent(false)
 	}
+	return s.startRecovered(epoch)
+}
+
+// startRecovered starts any stream partitions and consumer groups that were
+// added in recovery mode, i.e. while replaying the Raft log or by restoring a
+// snapshot, and deletes any tombstoned streams. It returns the number of
+// streams which had partitions that were recovered and the number of consumer
+// groups that were recovered.
+func (s *Server) startRecovered(epoch uint64) (int, int, error) {
+	s.restoreMu.Lock()
+	defer s.restoreMu.Unlock()
+	s.restorePending = false
 	recoveredStreams := make(map[string]struct{})
 	for _, stream := range s.metadata.GetStreams() {
 		if stream.IsTombstoned() {
@@ -300,6 +321,52 @@ func (s *Server) finishedRecovery(epoch uint64) (int, int, error) {
 		}
 	}
 	return len(recoveredStreams), recoveredGroups, nil
+}
+
+// finishRestore starts the streams and consumer groups that were restored from
+// a snapshot if this has not happened yet. Restore adds them in recovery mode
+// since, on startup, log entries behind the snapshot might be replayed before
+// the state is final. Replay ends with finishedRecovery, which starts them. If
+// nothing is replayed, the server calls this instead: on startup once the API
+// server is initialized, before applying a newly committed entry, or at the
+// end of Restore if the server is already running.
+func (s *Server) finishRestore() error {
+	if !s.isRestorePending() {
+		return nil
+	}
+	// Nothing was replayed since the restore, so there are no tombstoned
+	// streams and the epoch is not used.
+	recoveredStreams, recoveredGroups, err := s.startRecovered(0)
+	if err != nil {
+		return err
+	}
+	s.logger.Debugf("fsm: Finished recovering from snapshot, recovered %s and %s",
+		english.Plural(recoveredStreams, "stream", ""),
+		english.Plural(recoveredGroups, "consumer group", ""),
+	)
+	return nil
+}
+
+// finishRestoreIfNoReplay calls finishRestore unless the Raft log holds
+// command entries behind the snapshot. Those will be replayed, which ends with
+// finishedRecovery, or applied as newly committed entries.
+func (s *Server) finishRestoreIfNoReplay(node *raftNode) error {
+	if !s.isRestorePending() {
+		return nil
+	}
+	replay, err := node.hasCommandAfterSnapshot()
+	if err != nil || replay {
+		return err
+	}
+	return s.finishRestore()
+}
+
+// isRestorePending indicates if state restored from a snapshot has yet to be
+// started.
+func (s *Server) isRestorePending() bool {
+	s.restoreMu.Lock()
+	defer s.restoreMu.Unlock()
+	return s.restorePending
 }
 
 // fsmSnapshot is returned by an FSM in response to a Snapshot. It must be safe
@@ -427,6 +494,9 @@ func (s *Server) Restore(snapshot io.ReadCloser) error {
 	// Mark streams and groups as recovered so they don't start leader/follower
 	// loops until finishedRecovery() is called after log replay completes.
 	// This is critical because s.api is not yet initialized during Restore().
+	s.restoreMu.Lock()
+	s.restorePending = true
+	s.restoreMu.Unlock()
 	for _, stream := range snap.Streams {
 		if err := s.applyCreateStream(stream, true, 0); err != nil {
 			return err
@@ -439,6 +509,12 @@ func (s *Server) Restore(snapshot io.ReadCloser) error {
 	}
 	s.logger.Debugf("fsm: Finished restoring Raft state from snapshot, recovered %s",
 		english.Plural(len(snap.Streams), "stream", ""))
+	if s.IsRunning() {
+		// The server installed a snapshot while running. The entries behind it
+		// are applied as newly committed entries, so there is no replay to wait
+		// for.
+		return s.finishRestore()
+	}
 	return nil
 }
 
